@@ -49,7 +49,7 @@ LEVEL_TEXT = ('Theorems (Props/C01.v, closed under the global context) over a st
               'from any well-formed file, raises or returns a well-formed file with no side condition (C01_step_wf_all_but_eval: renameDimensions with '
               'any pairs, arithmetic with any operand); with eval restricted to shape-preserving expressions the invariant holds over sequences of any '
               'length (C01_step_wf_partial, C01_run_wf_partial, C01_trace_wf_partial); unlimited flags of surviving dimensions are kept '
-              '(C01_step_unlimited_partial, 13 of 14 operations); without the eval side condition the statement is refuted by vm_compute witnesses '
+              '(C01_step_unlimited_partial: all 14 operations, given the dictionary invariant C01_keys_nodup_invariant; one side condition, refuted without it: C01_slice_points_refuted); without the eval side condition the statement is refuted by vm_compute witnesses '
               'replayed on the library (C01_eval_index_refuted, C01_eval_broadcast_refuted, C01_run_wf_refuted) = known finding; the completion clause is proved for applyAlongDimensions on its documented domain (C01_apply_completes). '
               'Tie H: structure after every step, incl. raises.')
 LEVEL_NOTE = 'Trusted: Coq kernel + vm_compute; the correspondence harness; numpy broadcasting/slicing rules as modelled; values not modelled.'
